@@ -73,7 +73,7 @@ func (w *W) c04JudgeOne(st *c04State, g string, doc []byte, tail bool) {
 	}
 	want := []*ref.Value{a.Value}
 	var first []byte
-	for ci, cfg := range w.configs() {
+	for ci, cfg := range w.configsAlt(st.n) {
 		fresh := (st.n+ci)%64 == 0
 		pj, err, pan := w.parseGuarded(in, cfg, false, fresh)
 		if pan != nil {
